@@ -82,7 +82,8 @@ impl StructParser {
             .serde_parser
             .parse_struct_serde_attrs(&item_struct.attrs);
 
-        let fields = match &item_struct.fields {
+        let struct_name = item_struct.ident.unraw().to_string();
+        let mut fields: Vec<FieldInfo> = match &item_struct.fields {
             syn::Fields::Named(fields_named) => fields_named
                 .named
                 .iter()
@@ -98,8 +99,28 @@ impl StructParser {
             }
         };
 
+        // `children: Vec<Self>` names the struct itself
+        for field in &mut fields {
+            let is_ident = |c: char| c.is_alphanumeric() || c == '_';
+            let mut rust_type = String::new();
+            let mut rest = field.rust_type.as_str();
+            while let Some(pos) = rest.find("Self") {
+                let whole_word = !rest[..pos].ends_with(is_ident)
+                    && !rest[pos + 4..].starts_with(is_ident)
+                    && !rest[pos + 4..].starts_with("::");
+                rust_type.push_str(&rest[..pos]);
+                rust_type.push_str(if whole_word { &struct_name } else { "Self" });
+                rest = &rest[pos + 4..];
+            }
+            rust_type.push_str(rest);
+            if rust_type != field.rust_type {
+                field.type_structure = type_resolver.parse_type_structure(&rust_type);
+                field.rust_type = rust_type;
+            }
+        }
+
         Some(StructInfo {
-            name: item_struct.ident.unraw().to_string(),
+            name: struct_name,
             fields,
             file_path: file_path.to_string_lossy().to_string(),
             is_enum: false,
